@@ -665,7 +665,7 @@ impl Prop for C08DeepEndgames {
             .boxed()
     }
     fn cases(&self, tier: Tier) -> u32 {
-        tier.pick(3_200, 80_000)
+        tier.pick(3_200, 48_000)
     }
     fn test(&self, c: &(String, u8, u8), st: &mut Stats) -> TestResult {
         let mut pos = Pos::from_fen(&c.0).map_err(Failure::new)?;
